@@ -493,7 +493,10 @@ def judge(ctx: Ctx, c, schedule, results, final, trace, trace_info=None):
                 ids = {r for (dd, r, _) in lst if dd == d_}
                 rows = [i for (i, dd, _t) in final[table] if dd == d_ and sp.contains_and_in_subspace(i, im.IDSubspace(b, e))]
                 recycling_possible = live_before + len(descs - pre_descs) > min(size, c.get("max_ids", 1024)) if size <= 1024 else False
-                if (len(ids) > 1 or len(rows) > 1) and not recycling_possible:
+                # two rows of the requested subspace carrying one description can never arise one-at-a-time (the second
+                # request would have found the first row), whatever was recycled; two different returned ids can — when the
+                # first assignment was recycled in between — so that part is judged only where recycling is impossible
+                if len(rows) > 1 or (len(ids) > 1 and not recycling_possible):
                     ctx.violation("concurrent requests for one description ended with more than one ID bound to it", case,
                                   {"description": d_, "returned": sorted(ids), "rows": rows}, key="same-description-two-ids")
         # (b) different descriptions never share an id while free ids exist
@@ -644,6 +647,11 @@ def cases(ctx: Ctx):
             c["preupload"] = entry[3]
         yield c
     yield dict(k="explore", programs=[[["mark", 5, "T", 7]], [["mark", 5, "T", 9]], [["set", 5, "B"]]], prefill=[[5, "A"]], limit=200)
+    # a "large" subspace (size > max_ids) that is completely full: every sample collides, the request cleans up and retries
+    yield dict(k="explore", max_ids=2, programs=[[["get", "X", "8bit", 5, 8]], [["get", "X", "8bit", 5, 8]]],
+               prefill=[[5, "A"], [6, "B"], [7, "C"]], limit=300)
+    yield dict(k="explore", max_ids=1, programs=[[["get", "X", "8bit", 5, 7]], [["get", "X", "8bit", 5, 7]], [["get", "Y", "8bit", 5, 7]]],
+               prefill=[[5, "A"], [6, "B"]], limit=300)
     # exhaustive exploration of small programs
     yield dict(k="explore", programs=[[["get", "X", "32bit", 0, 256]], [["get", "X", "32bit", 0, 256]]], limit=400)
     yield dict(k="explore", programs=[[["get", "X", "24bit", 3, 4]], [["get", "X", "24bit", 3, 4]], [["get", "Y", "24bit", 3, 4]]], limit=400)
